@@ -6,6 +6,8 @@ from ..common import tier
 def run():
     rep = run_fw("C05", kappas=2 if tier() == "quick" else 6)
     batch_phase(rep, "C05")
+    from ..drivers.system import system_phase
+    system_phase(rep, "C05", "fw")
     return rep.finish()
 
 
